@@ -11,7 +11,7 @@ import (
 
 type C10Case struct {
 	Case   *CheckCase `json:"case"`
-	Mode   string     `json:"mode"` // check | rerun (fail file replay) | fuzz | example
+	Mode   string     `json:"mode"` // check | rerun (fail file replay) | fuzz | example | goexit (Check on a goroutine that user code ends with runtime.Goexit)
 	Stream []uint64   `json:"stream,omitempty"`
 	ExGen  *GenSpec   `json:"exgen,omitempty"`
 	ExSeed int        `json:"exseed,omitempty"`
@@ -96,7 +96,7 @@ func genC10Cleanup(dt *drv.T, depth int) *Stmt {
 
 func (c10) Gen(dt *drv.T, c *Ctx) any {
 	cs := &C10Case{Case: &CheckCase{}}
-	cs.Mode = pick(dt, "mode", "check", "check", "check", "rerun", "fuzz", "example")
+	cs.Mode = pick(dt, "mode", "check", "check", "check", "rerun", "fuzz", "example", "goexit")
 	gc := GenCfg{LenCap: 8, Depth: c.Pick(1, 2), SmallInts: true, RejectHeavy: chance(dt, "rej", 40), Custom: true, CustomStmts: true, CustomNonFatal: true, CleanupBeforeSkip: true}
 	if cs.Mode == "example" {
 		cs.ExGen = genCustomSpec(dt, gc)
@@ -113,11 +113,51 @@ func (c10) Gen(dt *drv.T, c *Ctx) any {
 	cs.Case.Cfg = genCheckCfg(dt, "TestC10", 60)
 	cs.Case.Cfg.NoFailFile = cs.Mode != "rerun"
 	cs.Case.Cfg.ShrinkNS = pick(dt, "shrink", int64(0), 5e6, 5e7, 3e8)
+	if cs.Mode == "goexit" {
+		// somewhere user code ends the goroutine: at the end of the body, under a condition, or as the last statement
+		// of a cleanup (never on the extra goroutines, whose exit would end only themselves)
+		plantGoexit(dt, p)
+	}
 	if cs.Mode == "fuzz" {
 		cs.Stream = genStream(dt)
 		cs.Stream = append(cs.Stream, genStream(dt)...)
 	}
 	return cs
+}
+
+// plantGoexit puts goexit statements into cleanups (as their last statement) and at the end of the body.
+func plantGoexit(dt *drv.T, p *Prog) {
+	planted := 0
+	var walk func(body []*Stmt, inGo bool)
+	walk = func(body []*Stmt, inGo bool) {
+		for _, st := range body {
+			switch st.Op {
+			case "cleanup":
+				walk(st.Body, inGo)
+				if !inGo && st.Kind != "nil" && chance(dt, "goexit-in-cleanup", 35) {
+					st.Body = append(st.Body, &Stmt{Op: "goexit"})
+					planted++
+				}
+			case "go":
+				walk(st.Body, true)
+			case "if", "ifinv":
+				walk(st.Body, inGo)
+			case "repeat":
+				for _, a := range st.Actions {
+					walk(a.Body, inGo)
+				}
+				walk(st.Inv, inGo)
+			}
+		}
+	}
+	walk(p.Body, false)
+	if planted == 0 || chance(dt, "goexit-in-body", 40) {
+		ge := &Stmt{Op: "goexit"}
+		if chance(dt, "goexit-cond", 60) {
+			ge = &Stmt{Op: "if", Cond: &Cond{Draw: 0, Op: "mod", M: int64(pick(dt, "gm", 2, 3, 5)), C: 0}, Body: []*Stmt{ge}}
+		}
+		p.Body = append(p.Body, ge)
+	}
 }
 
 // validateBrackets checks the context / cleanup discipline on the trace of one invocation.
@@ -271,6 +311,14 @@ func (c10) Run(c *Ctx, csAny any) Outcome {
 			res := RunFuzzCfg(cs.Case.Cfg, x.Prop, WordsToBytes(cs.Stream))
 			if res.Panicked != nil {
 				out.Viol = violf("C10:panic-escaped", "a panic escaped MakeFuzz: %v", res.Panicked)
+			}
+		case "goexit":
+			obs, goexited := RunCheckGo(cs.Case.Cfg, x.Prop)
+			if goexited {
+				classes["goroutine-ended-by-Goexit"] = true
+			}
+			if obs.Escaped != nil {
+				out.Viol = violf("C10:panic-escaped", "a panic escaped rapid.Check: %v", obs.Escaped)
 			}
 		default:
 			obs := RunCheck(cs.Case.Cfg, x.Prop)
